@@ -58,7 +58,7 @@ class Thr(Engine):
     flavour = 'tsan'
     keep_prefix = 10 ** 6          # no delta debugging: schedules are not reproducible op by op
     env = {'TSAN_OPTIONS': 'exitcode=0:report_signal_unsafe=0:history_size=4', 'VERIF_REFS': refs.REFDIR}
-    timeout = 1200
+    timeout = 3000
 
     def refs(self):
         if not hasattr(self, '_refs'):
@@ -119,7 +119,7 @@ class Thr(Engine):
 
     def gen(self, rng, tier):
         quick = tier == 'quick'
-        att = 3 if quick else 8
+        att = 3 if quick else 6
         R = self.refs()
         if len(R) < 100:
             raise RuntimeError('reference corpus not found')
@@ -144,7 +144,7 @@ class Thr(Engine):
         for i in range(0, len(fmts), 6):
             yield self.case(f'writers-{i}', [f'wr {f} {self.filt(rng, f)} {rng.randrange(1000)} {rng.choice([1, 3, 7])}'
                                              for f in fmts[i:i + 6]], att)
-        n = 16 if quick else 400
+        n = 16 if quick else 200
         for i in range(n):
             k = rng.choice([2, 3, 4, 6, 8] if quick else [2, 3, 4, 6, 8, 12, 16])
             wls = []
